@@ -5,21 +5,21 @@ import math
 VARS = ['xa', 'xb', 'xc', 'xd']
 
 UN = {'not', 'rise', 'fall', 'prev', 'sprev', 'next', 'snext', 'once', 'hist', 'ev', 'alw'}
-BIN = {'and', 'or', 'implies', 'iff', 'xor', 'since', 'until'}
+BIN = {'and', 'or', 'implies', 'iff', 'xor', 'since', 'until', 'unless'}
 TUN = {'oncet', 'histt', 'evt', 'alwt'}
-TBIN = {'sincet', 'untilt', 'precedes'}
+TBIN = {'sincet', 'untilt', 'precedes', 'unlesst'}
 A1 = {'abs', 'sqrt', 'exp', 'ln', 'neg'}
 A2 = {'add', 'sub', 'mul', 'div', 'pow', 'log'}
 CMP = {'leq': '<=', 'lt': '<', 'geq': '>=', 'gt': '>', 'eq': '==', 'neq': '!=='}
-FUTURE = {'next', 'snext', 'ev', 'alw', 'until', 'evt', 'alwt', 'untilt'}
-UNB_FUTURE = {'ev', 'alw', 'until'}
+FUTURE = {'next', 'snext', 'ev', 'alw', 'until', 'evt', 'alwt', 'untilt', 'unless', 'unlesst'}
+UNB_FUTURE = {'ev', 'alw', 'until', 'unless'}
 
 KW = {'not': 'not', 'rise': 'rise', 'fall': 'fall', 'prev': 'prev', 'sprev': 's_prev',
       'next': 'next', 'snext': 's_next', 'once': 'once', 'hist': 'historically',
       'ev': 'eventually', 'alw': 'always', 'and': 'and', 'or': 'or', 'implies': 'implies',
       'iff': 'iff', 'xor': 'xor', 'since': 'since', 'until': 'until',
       'oncet': 'once', 'histt': 'historically', 'evt': 'eventually', 'alwt': 'always',
-      'sincet': 'since', 'untilt': 'until'}
+      'sincet': 'since', 'untilt': 'until', 'unless': 'unless', 'unlesst': 'unless'}
 A2SYM = {'add': '+', 'sub': '-', 'mul': '*', 'div': '/'}
 
 
@@ -96,8 +96,8 @@ def cost1(f, n):
         return 1
     if op in ('once', 'hist', 'ev', 'alw'):
         return n * k[0]
-    if op in ('since', 'until'):
-        return n * k[1] + (n * n // 2 + 1) * k[0]
+    if op in ('since', 'until', 'unless'):
+        return n * k[1] + (n * n // 2 + 1) * k[0] + (n * k[0] if op == 'unless' else 0)
     if op in TUN:
         return (min(f[2], n) - min(f[1], n) + 1) * k[0]
     if op in TBIN:
@@ -153,12 +153,36 @@ def to_text(f, bound=None):
         return '(' + t(f[1]) + ') ' + KW[op] + ' (' + t(f[2]) + ')'
     if op in TUN:
         return KW[op] + bound(f[1], f[2]) + '(' + t(f[3]) + ')'
-    if op in ('sincet', 'untilt'):
+    if op in ('sincet', 'untilt', 'unlesst'):
         return '(' + t(f[3]) + ') ' + KW[op] + bound(f[1], f[2]) + ' (' + t(f[4]) + ')'
     raise ValueError('no text for ' + op)
 
 
+def add_unless(rng, f, prob=0.5):
+    """turn some until nodes into the sugar unless / unless[a,b]"""
+    if f[0] == 'until' and rng.random() < prob:
+        return ('unless', add_unless(rng, f[1], prob), add_unless(rng, f[2], prob))
+    if f[0] == 'untilt' and rng.random() < prob:
+        return ('unlesst', f[1], f[2], add_unless(rng, f[3], prob), add_unless(rng, f[4], prob))
+    if f[0] in ('unless', 'unlesst'):
+        return f
+    return rebuild(f, [add_unless(rng, c, prob) for c in children(f)])
+
+
+def desugar(f):
+    """phi unless psi = always(phi) or (phi until psi); phi unless[a,b] psi = always[0,b](phi) or (phi until[a,b] psi)"""
+    if f[0] == 'unless':
+        a, b = desugar(f[1]), desugar(f[2])
+        return ('or', ('alw', a), ('until', a, b))
+    if f[0] == 'unlesst':
+        a, b = desugar(f[3]), desugar(f[4])
+        return ('or', ('alwt', 0, f[2], a), ('untilt', f[1], f[2], a, b))
+    return rebuild(f, [desugar(c) for c in children(f)])
+
+
 def to_sx(f):
+    if f[0] in ('unless', 'unlesst') or ('unless' in str(f)):
+        f = desugar(f)
     op = f[0]
     if op == 'var':
         return '(var %d)' % f[1]
